@@ -49,7 +49,9 @@ func (i dirItem) findDirEntry(item *dirItem, joliet bool) *directoryEntry {
 	identifier := makeIdentifier(item.name, joliet)
 
 	for i := range entries {
-		if entries[i].Identifier == identifier {
+		// a directory record that was not linked to its directory yet: a file, or another directory,
+		// whose name maps to the same identifier must not be taken for it
+		if entries[i].Identifier == identifier && entries[i].FileFlags&dirFlagDir != 0 && entries[i].ExtentLength == 0 {
 			return &entries[i]
 		}
 	}
